@@ -1,11 +1,506 @@
-//! (stub) binding for this area — see DESIGN.md
-use crate::util::Args;
+//! Binding of spec/LzDiff.tla (+ LzDiffOps.tla) to ragc_core::lz_diff::LZDiff.
+//!
+//! `replay-lz`  REPLAY: token sequences enumerated by TLC (MC_LzDiff) are fed, as bytes, to the
+//!              real decoder; after every token the real output must equal the model's `out`.
+//! `trace-lz`   TRACE: (reference, target, min match) cases are driven through the real
+//!              `LZDiff::new / prepare / encode / decode`; inputs, encoder bytes and decoder output are
+//!              recorded as NDJSON.  Nothing is decided here: TLC decodes the bytes with the
+//!              specification (Trace_LzDiff.tla) and compares.
+//!
+//! The only "semantics" on this side is `token_lengths`, which proposes token boundaries for the
+//! token-by-token trace mode; TLC re-lexes every proposed slice with the specification's lexer
+//! (`TokAt`) and rejects the trace if a boundary is not where the grammar puts it.
+use crate::util::{self, Args};
 use anyhow::Result;
+use rand::rngs::StdRng;
+use rand::Rng;
+use ragc_core::lz_diff::LZDiff;
+use serde_json::{json, Value};
+use std::io::{BufRead, Write};
 
-/// Returns None when `cmd` is not one of this module's sub-commands.
 pub fn dispatch(cmd: &str, a: &Args) -> Option<Result<()>> {
-    let _ = a;
     match cmd {
+        "replay-lz" => Some(replay(a)),
+        "trace-lz" => Some(trace(a)),
         _ => None,
     }
+}
+
+fn bytes_of(v: &Value) -> Vec<u8> {
+    v.as_array().map(|a| a.iter().map(|x| x.as_u64().unwrap() as u8).collect()).unwrap_or_default()
+}
+
+fn arr(v: &[u8]) -> String {
+    let mut s = String::with_capacity(v.len() * 3 + 2);
+    s.push('[');
+    for (i, x) in v.iter().enumerate() {
+        if i > 0 {
+            s.push(',');
+        }
+        s.push_str(&x.to_string());
+    }
+    s.push(']');
+    s
+}
+
+// ---------------------------------------------------------------------------------------------
+// REPLAY
+// ---------------------------------------------------------------------------------------------
+pub fn replay(a: &Args) -> Result<()> {
+    util::install_panic_hook();
+    let f = std::fs::File::open(a.get("in")?)?;
+    let mut n = 0u64;
+    let mut steps = 0u64;
+    let mut fails: Vec<Value> = vec![];
+    for line in std::io::BufReader::new(f).lines() {
+        let line = line?;
+        if line.trim().is_empty() {
+            continue;
+        }
+        let b: Value = serde_json::from_str(&line)?;
+        let mm = b["mm"].as_u64().unwrap() as u32;
+        let reference = bytes_of(&b["ref"]);
+        n += 1;
+        let st = b["steps"].as_array().unwrap();
+        let mut text: Vec<u8> = vec![];
+        for (i, s) in st.iter().enumerate() {
+            text.extend_from_slice(&bytes_of(&s["bytes"]));
+            let want = bytes_of(&s["out"]);
+            steps += 1;
+            let (r, t) = (reference.clone(), text.clone());
+            let res = util::catch(move || {
+                let mut lz = LZDiff::new(mm);
+                lz.prepare(&r);
+                lz.decode(&t)
+            });
+            let bad = match res {
+                Ok(got) => {
+                    if got != want {
+                        Some(json!({"step": i, "text": text, "model_out": want, "real_out": got}))
+                    } else {
+                        None
+                    }
+                }
+                Err(p) => Some(json!({"step": i, "text": text, "model_out": want, "panic": p})),
+            };
+            if let Some(mut v) = bad {
+                v["ref"] = json!(reference);
+                v["mm"] = json!(mm);
+                v["tokens"] = json!(st.iter().take(i + 1).map(|x| x["tok"].clone()).collect::<Vec<_>>());
+                fails.push(v);
+                break;
+            }
+        }
+        if fails.len() >= 20 {
+            break;
+        }
+    }
+    println!("{}", json!({"behaviours": n, "steps": steps, "fails": fails}));
+    Ok(())
+}
+
+// ---------------------------------------------------------------------------------------------
+// TRACE
+// ---------------------------------------------------------------------------------------------
+struct Obs {
+    enc: Vec<u8>,
+    dec: Vec<u8>,
+    panic: String,
+}
+
+/// Drive the real API once: new, prepare, encode, decode.  Panics are data.
+fn observe(reference: &[u8], target: &[u8], mm: u32) -> Obs {
+    let (r, t) = (reference.to_vec(), target.to_vec());
+    let e = util::catch(move || {
+        let mut lz = LZDiff::new(mm);
+        lz.prepare(&r);
+        let enc = lz.encode(&t);
+        (lz, enc)
+    });
+    match e {
+        Err(p) => Obs { enc: vec![], dec: vec![], panic: format!("encode: {}", p) },
+        Ok((lz, enc)) => {
+            let e2 = enc.clone();
+            let d = util::catch(std::panic::AssertUnwindSafe(move || lz.decode(&e2)));
+            match d {
+                Ok(dec) => Obs { enc, dec, panic: String::new() },
+                Err(p) => Obs { enc, dec: vec![], panic: format!("decode: {}", p) },
+            }
+        }
+    }
+}
+
+/// Proposed token boundaries (lengths in bytes).  Verified by TLC against the grammar.
+fn token_lengths(enc: &[u8]) -> Vec<usize> {
+    let mut v = vec![];
+    let mut i = 0;
+    while i < enc.len() {
+        let c = enc[i];
+        let mut j = i + 1;
+        if (65..=95).contains(&c) || c == b'!' {
+            // one byte
+        } else if c == 30 {
+            while j < enc.len() && enc[j].is_ascii_digit() {
+                j += 1;
+            }
+            j = (j + 1).min(enc.len());
+        } else {
+            while j < enc.len() && enc[j - 1] != b'.' {
+                j += 1;
+            }
+        }
+        v.push(j - i);
+        i = j;
+    }
+    v
+}
+
+struct Sink {
+    out: std::io::BufWriter<std::fs::File>,
+    id: u64,
+    maxtok: usize,
+}
+impl Sink {
+    fn fields(&self, reference: &[u8], target: &[u8], mm: u32, o: &Obs, class: &str) -> String {
+        format!(
+            "\"id\":{},\"class\":\"{}\",\"mm\":{},\"ref\":{},\"tgt\":{},\"enc\":{},\"dec\":{},\"panic\":{}",
+            self.id,
+            class,
+            mm,
+            arr(reference),
+            arr(target),
+            arr(&o.enc),
+            arr(&o.dec),
+            serde_json::to_string(&o.panic).unwrap()
+        )
+    }
+    /// one "pair" event: the whole case is one specification step (function-level decoder)
+    fn pair(&mut self, reference: &[u8], target: &[u8], mm: u32, class: &str) -> Result<()> {
+        let o = observe(reference, target, mm);
+        writeln!(self.out, "{{\"ev\":\"pair\",{}}}", self.fields(reference, target, mm, &o, class))?;
+        self.id += 1;
+        Ok(())
+    }
+    /// token-by-token case (start, tok*, end) unless the text has too many tokens
+    fn stepped(&mut self, reference: &[u8], target: &[u8], mm: u32, class: &str) -> Result<()> {
+        let o = observe(reference, target, mm);
+        let toks = token_lengths(&o.enc);
+        if toks.len() > self.maxtok || !o.panic.is_empty() {
+            writeln!(self.out, "{{\"ev\":\"pair\",{}}}", self.fields(reference, target, mm, &o, class))?;
+        } else {
+            writeln!(self.out, "{{\"ev\":\"start\",{}}}", self.fields(reference, target, mm, &o, class))?;
+            for n in toks {
+                writeln!(self.out, "{{\"ev\":\"tok\",\"id\":{},\"n\":{}}}", self.id, n)?;
+            }
+            writeln!(self.out, "{{\"ev\":\"end\",\"id\":{}}}", self.id)?;
+        }
+        self.id += 1;
+        Ok(())
+    }
+}
+
+fn parse_list(s: &str) -> Vec<u32> {
+    s.split(',').filter(|x| !x.is_empty()).map(|x| x.trim().parse().unwrap()).collect()
+}
+
+/// all strings over `alpha` with length in lo..=hi, in length-then-lexicographic order
+fn all_strings(alpha: &[u8], lo: usize, hi: usize) -> Vec<Vec<u8>> {
+    let mut res = vec![];
+    for len in lo..=hi {
+        let total = (alpha.len() as u64).pow(len as u32);
+        for mut x in 0..total {
+            let mut s = vec![0u8; len];
+            for k in (0..len).rev() {
+                s[k] = alpha[(x % alpha.len() as u64) as usize];
+                x /= alpha.len() as u64;
+            }
+            res.push(s);
+        }
+    }
+    res
+}
+
+pub fn trace(a: &Args) -> Result<()> {
+    util::install_panic_hook();
+    let seed: u64 = a.num("seed", 1u64);
+    let mut sink = Sink {
+        out: std::io::BufWriter::new(std::fs::File::create(a.get("out")?)?),
+        id: a.num("id0", 0u64),
+        maxtok: a.num("maxtok", 60000usize),
+    };
+    match a.get("mode")? {
+        "small" => small(a, seed, &mut sink)?,
+        "medium" => medium(a, seed, &mut sink)?,
+        "long" => long(a, seed, &mut sink)?,
+        "one" => {
+            // a single explicit case (replay of a recorded violation)
+            let r: Vec<u8> = parse_list(a.get("ref")?).iter().map(|&x| x as u8).collect();
+            let t: Vec<u8> = parse_list(a.get("tgt")?).iter().map(|&x| x as u8).collect();
+            sink.stepped(&r, &t, a.num("mm", 5u32), "one")?;
+        }
+        m => anyhow::bail!("unknown mode {}", m),
+    }
+    sink.out.flush()?;
+    Ok(())
+}
+
+/// Exhaustive (reference, target) pairs over a small alphabet: |ref| in 0..=maxlen,
+/// |tgt| in 1..=maxlen, every min match in `mms`.  `--stride s --phase p` keeps the pairs whose
+/// running number is = p (mod s): a stratified sample that still visits every reference.
+fn small(a: &Args, _seed: u64, sink: &mut Sink) -> Result<()> {
+    let alpha: Vec<u8> = parse_list(a.get("alpha")?).iter().map(|&x| x as u8).collect();
+    let maxlen: usize = a.num("maxlen", 5usize);
+    let mms = parse_list(a.opt("mms").unwrap_or("5,6,7,8"));
+    let stride: u64 = a.num("stride", 1u64).max(1);
+    let phase: u64 = a.num("phase", 0u64) % stride;
+    let class = format!("small{}", alpha.iter().map(|x| x.to_string()).collect::<Vec<_>>().join("_"));
+    let refs = all_strings(&alpha, 0, maxlen);
+    let tgts = all_strings(&alpha, 1, maxlen);
+    let mut k = 0u64;
+    for r in &refs {
+        for t in &tgts {
+            for &mm in &mms {
+                if k % stride == phase {
+                    sink.pair(r, t, mm, &class)?;
+                }
+                k += 1;
+            }
+        }
+    }
+    Ok(())
+}
+
+// ---- random material --------------------------------------------------------------------------
+fn rand_seq(rng: &mut StdRng, alpha: &[u8], n: usize) -> Vec<u8> {
+    (0..n).map(|_| alpha[rng.gen_range(0..alpha.len())]).collect()
+}
+
+const SPECIAL: [u8; 14] = [4, 4, 4, 30, 30, 5, 6, 7, 8, 9, 10, 12, 14, 15];
+
+/// sprinkle N runs / IUPAC codes / code 30 into s
+fn decorate(rng: &mut StdRng, s: &mut Vec<u8>, events: usize, max_run: usize) {
+    for _ in 0..events {
+        if s.is_empty() {
+            return;
+        }
+        let p = rng.gen_range(0..s.len());
+        match rng.gen_range(0..4) {
+            0 | 1 => {
+                // N run (overwrite or insert)
+                let l = rng.gen_range(1..=max_run);
+                if rng.gen_bool(0.5) {
+                    for q in p..(p + l).min(s.len()) {
+                        s[q] = 4;
+                    }
+                } else {
+                    for _ in 0..l {
+                        s.insert(p, 4);
+                    }
+                }
+            }
+            2 => s[p] = SPECIAL[rng.gen_range(0..SPECIAL.len())],
+            _ => s[p] = 30,
+        }
+    }
+}
+
+/// one edit of `t`; `r` is the reference (source of blocks)
+fn edit(rng: &mut StdRng, t: &mut Vec<u8>, r: &[u8], alpha: &[u8], scale: usize) {
+    let n = t.len();
+    let p = if n == 0 { 0 } else { rng.gen_range(0..n) };
+    let l = rng.gen_range(1..=scale.max(1));
+    match rng.gen_range(0..14) {
+        0 | 1 => {
+            // substitution by a different symbol of the alphabet
+            if n > 0 {
+                let mut c = alpha[rng.gen_range(0..alpha.len())];
+                if c == t[p] {
+                    c = alpha[(alpha.iter().position(|&x| x == c).unwrap() + 1) % alpha.len()];
+                }
+                t[p] = c;
+            }
+        }
+        2 => {
+            let ins = rand_seq(rng, alpha, l);
+            t.splice(p..p, ins);
+        }
+        3 => {
+            let e = (p + l).min(n);
+            t.drain(p..e);
+        }
+        4 => {
+            // N run 1..: inserted
+            let k = rng.gen_range(1..=(scale.max(1) + 3));
+            t.splice(p..p, std::iter::repeat(4u8).take(k));
+        }
+        5 => {
+            if n > 0 {
+                t[p] = SPECIAL[rng.gen_range(0..SPECIAL.len())];
+            }
+        }
+        6 => {
+            // copy a block of the reference to another place (block move / duplication)
+            if !r.is_empty() {
+                let s = rng.gen_range(0..r.len());
+                let e = (s + rng.gen_range(1..=(4 * scale).max(2))).min(r.len());
+                let blk: Vec<u8> = r[s..e].to_vec();
+                t.splice(p..p, blk);
+            }
+        }
+        7 => {
+            // reverse complement of a block
+            let e = (p + (4 * l)).min(n);
+            let blk: Vec<u8> = t[p..e].iter().rev().map(|&c| if c < 4 { 3 - c } else { c }).collect();
+            t.splice(p..e, blk);
+        }
+        8 => {
+            t.truncate(p); // prefix
+        }
+        9 => {
+            t.drain(0..p); // suffix (keeps the end: match-to-end)
+        }
+        10 => {
+            // tail appended
+            let ins = rand_seq(rng, alpha, l);
+            t.extend(ins);
+        }
+        _ => {
+            // two substitutions a few symbols apart: literal, symbols equal to the reference at the
+            // predicted position (candidates for '!'), literal, then a match at the predicted position
+            if n > 1 {
+                let q = rng.gen_range(0..n);
+                let c = alpha[rng.gen_range(0..alpha.len())];
+                t[q] = if c == t[q] { alpha[(alpha.iter().position(|&x| x == c).unwrap() + 1) % alpha.len()] } else { c };
+                let q2 = q + rng.gen_range(1..=8);
+                if q2 < n {
+                    let c = alpha[rng.gen_range(0..alpha.len())];
+                    t[q2] = if c == t[q2] { alpha[(alpha.iter().position(|&x| x == c).unwrap() + 1) % alpha.len()] } else { c };
+                }
+            }
+        }
+    }
+}
+
+const ALPHAS: [&[u8]; 5] = [&[0, 1], &[0, 1, 2, 3], &[0, 1, 2, 3], &[0, 3], &[0, 1, 2]];
+
+/// Mutation-derived pairs of medium length (8..=maxlen): the region where hash matches, backward
+/// extension, '!' rewriting, N runs and match-to-end interact, still cheap to decode in TLC.
+fn medium(a: &Args, seed: u64, sink: &mut Sink) -> Result<()> {
+    let n: usize = a.num("n", 1000usize);
+    let maxlen: usize = a.num("maxlen", 64usize);
+    let mm_hi: u32 = a.num("mmhi", 10u32);
+    let mut rng = util::rng(seed.wrapping_mul(0x9E3779B97F4A7C15) ^ 0xC09);
+    for _ in 0..n {
+        let alpha = ALPHAS[rng.gen_range(0..ALPHAS.len())];
+        let rl = rng.gen_range(8..=maxlen);
+        let mut r = rand_seq(&mut rng, alpha, rl);
+        if rng.gen_bool(0.3) {
+            // periodic reference: many index positions carry the same key
+            let per = rng.gen_range(1..=6);
+            for i in per..r.len() {
+                r[i] = r[i - per];
+            }
+        }
+        if rng.gen_bool(0.35) {
+            let ev = rng.gen_range(1..=2);
+            decorate(&mut rng, &mut r, ev, 6);
+        }
+        let mut t = r.clone();
+        if rng.gen_bool(0.08) {
+            let tl = rng.gen_range(1..=maxlen);
+            t = rand_seq(&mut rng, alpha, tl);
+        }
+        let edits = rng.gen_range(0..=4);
+        for _ in 0..edits {
+            edit(&mut rng, &mut t, &r, alpha, 3);
+        }
+        if t.is_empty() {
+            t.push(alpha[0]);
+        }
+        let mm = if rng.gen_bool(0.8) { rng.gen_range(5..=8) } else { rng.gen_range(9..=mm_hi.max(9)) };
+        sink.pair(&r, &t, mm, "medium")?;
+    }
+    Ok(())
+}
+
+/// Long pairs (up to --maxlen symbols): random and mutation-derived, min match 5..=32.
+fn long(a: &Args, seed: u64, sink: &mut Sink) -> Result<()> {
+    let n: usize = a.num("n", 50usize);
+    let maxlen: usize = a.num("maxlen", 20000usize);
+    let minlen: usize = a.num("minlen", 100usize);
+    let mut rng = util::rng(seed.wrapping_mul(0xD1B54A32D192ED03) ^ 0x10C09);
+    let acgt: &[u8] = &[0, 1, 2, 3];
+    for k in 0..n {
+        // log-uniform length
+        let lf = (minlen as f64).ln() + rng.gen::<f64>() * ((maxlen as f64).ln() - (minlen as f64).ln());
+        let rl = lf.exp() as usize;
+        let mut r = rand_seq(&mut rng, acgt, rl);
+        // repeats inside the reference: tandem and dispersed copies
+        for _ in 0..rng.gen_range(0..4) {
+            let s = rng.gen_range(0..r.len());
+            let e = (s + rng.gen_range(10..200)).min(r.len());
+            let blk = r[s..e].to_vec();
+            let p = rng.gen_range(0..r.len());
+            let e2 = (p + blk.len()).min(r.len());
+            r.splice(p..e2, blk);
+        }
+        if rng.gen_bool(0.4) {
+            let ev = rng.gen_range(1..=4);
+            decorate(&mut rng, &mut r, ev, 40);
+        }
+        let mm: u32 = match k % 4 {
+            0 => rng.gen_range(5..=8),
+            1 => rng.gen_range(9..=20),
+            2 => 20, // the production default
+            _ => rng.gen_range(21..=32),
+        };
+        let mut t = r.clone();
+        let kind = rng.gen_range(0..10);
+        let class;
+        if kind == 0 {
+            // unrelated random target (kept shorter: all literals)
+            let tl = rng.gen_range(1..=rl.min(3000));
+            t = rand_seq(&mut rng, acgt, tl);
+            class = "long_random";
+        } else if kind == 1 {
+            // reverse complement of (a window of) the reference
+            // (of a window of at most 4000 symbols: nearly all literals, one trace step each)
+            let w = rl.min(4000);
+            let s0 = rng.gen_range(0..=(rl - w));
+            t = r[s0..s0 + w].iter().rev().map(|&c| if c < 4 { 3 - c } else { c }).collect();
+            class = "long_rc";
+        } else {
+            // point divergence 0..5 % plus structural edits
+            // (token-by-token validation costs about tokens x length: keep very long cases less divergent)
+            let div = if rl > 15000 { [0.0, 0.001, 0.005, 0.01][rng.gen_range(0..4)] } else { [0.0, 0.001, 0.005, 0.02, 0.05][rng.gen_range(0..5)] };
+            let mut i = 0;
+            let mut u: Vec<u8> = Vec::with_capacity(t.len() + 64);
+            while i < t.len() {
+                if rng.gen::<f64>() < div {
+                    match rng.gen_range(0..6) {
+                        0 | 1 | 2 => u.push((t[i] + rng.gen_range(1..4)) % 4),
+                        3 => {} // deletion
+                        4 => {
+                            u.push(t[i]);
+                            u.push(rng.gen_range(0..4));
+                        }
+                        _ => u.push(SPECIAL[rng.gen_range(0..SPECIAL.len())]),
+                    }
+                } else {
+                    u.push(t[i]);
+                }
+                i += 1;
+            }
+            t = u;
+            for _ in 0..rng.gen_range(0..5) {
+                edit(&mut rng, &mut t, &r, acgt, 12);
+            }
+            class = "long_mut";
+        }
+        if t.is_empty() {
+            t.push(0);
+        }
+        sink.stepped(&r, &t, mm, class)?;
+    }
+    Ok(())
 }
